@@ -1,0 +1,116 @@
+//go:build verif
+
+package engine
+
+//@ spec fun callable(t Term) bool = t is Variable || t is Atom || t is Compound
+//@ spec fun shownProc(vm *VM, pi procedureIndicator) *userDefined = vm.procedures[pi] as *userDefined
+//@ spec fun visible(vm *VM, pi procedureIndicator) bool = vm.procedures[pi] is *userDefined && (vm.procedures[pi] as *userDefined).public
+
+//@ func Clause
+//@   property C10 C09
+//@   nosafety
+//@   trusted-frame
+//@   requires vm != nil
+//@   requires[a-user-defined-procedure-in-the-table-is-an-object] forall q procedureIndicator :: has(vm.procedures, q) && vm.procedures[q] is *userDefined ==> (vm.procedures[q] as *userDefined) != nil
+//@   frozen vm, head, body, k, env
+//@   let rb = resolve(env, body)
+//@   bind pi, parg, perr = piArg#1
+//@   bind te = typeError#1
+//@   bind pe = permissionError#1
+//@   bind cp, cerr = renamedCopy#1
+//@   bind shown = rulify#1
+//@   bind d = Delay#1
+//@   at-call piArg requires[the-predicate-is-read-off-the-head-pattern-under-the-caller-s-bindings] a0 == head && a1 == env
+//@   ensures[a-head-that-names-no-predicate-is-the-error-of-reading-it] called(perr) && perr != nil ==> result.err == perr && !called(d)
+//@   at-call typeError requires[a-body-that-cannot-be-a-goal-is-a-type-error-callable-on-the-body] a0 == validTypeCallable && (a1 == body || a1 == rb) && a2 == env && !callable(rb)
+//@   ensures[a-body-that-cannot-be-a-goal-is-refused] called(perr) && perr == nil && !callable(rb) ==> called(te) && result.err == te && !called(d)
+//@   ensures[a-predicate-that-does-not-exist-has-no-clauses] called(perr) && perr == nil && callable(rb) && !has(vm.procedures, pi) ==> result == falsePromise
+//@   at-call permissionError requires[a-private-procedure-is-a-permission-error-access-private-procedure-on-its-indicator] a0 == operationAccess && a1 == permissionTypePrivateProcedure && a3 == env &&
+//@       has(vm.procedures, pi) && !visible(vm, pi) &&
+//@       a2 is *compound && (a2 as *compound).functor == atomSlash && len((a2 as *compound).args) == 2 &&
+//@       (a2 as *compound).args[0] is Atom && ((a2 as *compound).args[0] as Atom) == pi.name &&
+//@       (a2 as *compound).args[1] is Integer && ((a2 as *compound).args[1] as Integer) == pi.arity
+//@   ensures[the-clauses-of-a-private-procedure-are-not-shown] called(perr) && perr == nil && callable(rb) && has(vm.procedures, pi) && !visible(vm, pi) ==> called(pe) && !called(d)
+//@   at-call renamedCopy requires[what-is-shown-is-a-copy-under-a-renaming-of-its-own-made-with-the-caller-s-bindings] visible(vm, pi) && a1 == nil && a2 == env
+//@   loop 1 maintains[the-i-th-alternative-shows-a-renamed-copy-of-the-stored-term-of-the-i-th-clause] called(cp) && argof(cp, 0) == shownProc(vm, pi).clauses[$i + 1].raw
+//@   at-call rulify requires[the-copy-is-shown-as-a-rule] called(cp) && cerr == nil && a0 == cp && a1 == env
+//@   loop 1 invariant -1 <= $i && $i < len(ks)
+//@   loop 1 invariant[slots-not-yet-reached-are-empty] forall j int :: $i < j && j < len(ks) ==> ks[j] == nil
+//@   loop 1 invariant[every-clause-passed-has-its-alternative] forall j int :: 0 <= j && j <= $i ==> ks[j] != nil
+//@   loop 1 maintains[the-alternative-of-the-i-th-clause-is-the-i-th-alternative] ks[$i + 1] != nil
+//@   loop 1 maintains[the-alternative-shows-the-copy-made-for-its-clause] called(shown) && r == shown
+//@   at-call Delay requires[one-alternative-per-clause-of-the-procedure-in-their-order] visible(vm, pi) && a0 == ks && len(a0) == len(shownProc(vm, pi).clauses) && forall j int :: 0 <= j && j < len(a0) ==> a0[j] != nil
+//@   ensures[the-clauses-of-a-public-procedure-are-enumerated-unless-copying-fails] called(perr) && perr == nil && callable(rb) && has(vm.procedures, pi) && visible(vm, pi) ==> (called(d) && result == d) || (called(cerr) && cerr != nil && result.err == cerr)
+
+//@ -- headIfBody(t, h, b): t is the term h :- b built by the built-in (the pattern clause/2 matches stored clauses with)
+//@ spec fun headIfBody(t Term, h Term, b Term) bool = t is *compound && (t as *compound).functor == atomIf && len((t as *compound).args) == 2 &&
+//@       (t as *compound).args[0] == h && (t as *compound).args[1] == b
+
+//@ -- one alternative of clause/2: the caller's Head :- Body pattern is unified with the copy made for this alternative's
+//@ -- clause, in the caller's environment, the answer going to the caller's continuation
+//@ func Clause$1
+//@   property C10 C09
+//@   nosafety
+//@   at-call Atom.Apply requires[the-pattern-is-the-caller-s-head-and-body-as-a-rule] a0 == atomIf && len(a1) == 2 && a1[0] == head && a1[1] == body
+//@   at-call Unify requires[the-caller-s-pattern-is-unified-with-the-copy-shown-for-this-clause] (headIfBody(a1, head, body) && a2 == r) || (headIfBody(a2, head, body) && a1 == r)
+//@   at-call Unify requires[the-answer-goes-to-the-caller-s-continuation-under-the-caller-s-bindings] a0 == vm && a3 == k && a4 == env
+//@   bind ans = Unify#1
+//@   ensures[the-alternative-is-that-unification] called(ans) && result == ans
+
+//@ -- copy_term/2: the second argument is unified with a copy of the first made with a renaming of its own (no
+//@ -- variable of the copy is a variable of the caller), under the caller's bindings
+//@ func CopyTerm
+//@   property C10
+//@   nosafety
+//@   bind c, cerr = renamedCopy#1
+//@   bind ans = Unify#1
+//@   bind fail = Error#1
+//@   at-call renamedCopy requires[the-first-argument-is-copied-under-a-renaming-of-its-own-with-the-caller-s-bindings] a0 == in && a1 == nil && a2 == env
+//@   at-call Unify requires[the-copy-is-unified-with-the-second-argument] called(c) && cerr == nil && ((a1 == c && a2 == out) || (a1 == out && a2 == c))
+//@   at-call Unify requires[the-answer-goes-to-the-caller-s-continuation-under-the-caller-s-bindings] a0 == vm && a3 == k && a4 == env
+//@   at-call Error requires[a-copy-that-cannot-be-made-is-reported-as-its-error] called(c) && cerr != nil && a0 == cerr
+//@   ensures[a-term-that-can-be-copied-is-answered-by-that-unification] called(c) && (cerr == nil ==> called(ans) && result == ans)
+//@   ensures[a-term-that-cannot-be-copied-is-an-error-and-nothing-is-unified] cerr != nil ==> !called(ans) && called(fail) && result == fail
+
+//@ -- term_variables/2: the variables of the term under the caller's bindings, each once, in the order in which a
+//@ -- depth-first left-to-right walk first meets them, unified with the second argument (which must be a list or a partial list)
+//@ func TermVariables
+//@   property C10
+//@   nosafety
+//@   trusted-frame
+//@   bind rt = (*Env).Resolve#1
+//@   bind sl, slerr = makeSlice#1
+//@   bind re = resourceError#1
+//@   bind ierr = (*ListIterator).Err#1
+//@   bind lst = List#1
+//@   bind ans = Unify#1
+//@   loop 1 invariant true
+//@   loop 3 invariant true
+//@   at-call (*Env).Resolve requires[every-subterm-is-inspected-under-the-caller-s-bindings] a0 == env
+//@   at-call append#1 requires[only-a-variable-met-for-the-first-time-is-listed] called(rt) && len(a1) == 1 && a1[0] == rt && rt is Variable && !has(witness, rt as Variable)
+//@   loop 1 maintains[a-variable-that-was-met-is-remembered-so-that-it-is-not-listed-again] called(rt) && (rt is Variable ==> has(witness, rt as Variable))
+//@   at-call makeSlice requires[a-compound-is-opened-into-as-many-subterms-as-it-has-arguments] called(rt) && rt is Compound && a0 == Compound.Arity(rt as Compound)
+//@   at-call resourceError requires[running-out-of-memory-is-a-resource-error-memory] a0 == resourceMemory && a1 == env
+//@   loop 2 invariant[the-arguments-passed-so-far-are-in-their-places] 0 <= i && forall j int :: 0 <= j && j < i ==> sl[j] == Compound.Arg(rt as Compound, j)
+//@   loop 2 maintains[the-i-th-subterm-is-the-i-th-argument] sl[i] == Compound.Arg(rt as Compound, i)
+//@   at-call append#2 requires[the-arguments-of-a-compound-are-visited-in-order-before-the-terms-still-waiting] called(sl) && slerr == nil && a0 == sl &&
+//@       forall j int :: 0 <= j && j < len(a0) ==> a0[j] == Compound.Arg(rt as Compound, j)
+//@   at-store ListIterator.List requires[the-second-argument-is-checked-to-be-a-list] v == vars
+//@   at-store ListIterator.Env requires[under-the-caller-s-bindings] v == env
+//@   at-store ListIterator.AllowPartial requires[a-partial-list-is-accepted] v == true
+//@   bind more = (*ListIterator).Next#1
+//@   at-call (*ListIterator).Next requires[the-iterator-made-here-is-run-to-its-end] fresh(a0)
+//@   at-call (*ListIterator).Err requires[it-is-the-check-of-the-second-argument-that-decides] called(more) && a0 == argof(more, 0)
+//@   at-call List requires[the-variables-in-the-order-they-were-listed] a0 == local(ret, []Term)
+//@   at-call Unify requires[the-list-of-variables-is-unified-with-the-second-argument] called(lst) && ((a1 == vars && a2 == lst) || (a1 == lst && a2 == vars))
+//@   at-call Unify requires[the-answer-goes-to-the-caller-s-continuation-under-the-caller-s-bindings] a0 == vm && a3 == k && a4 == env
+//@   ensures[a-second-argument-that-is-neither-a-list-nor-a-partial-list-is-the-error-of-that-check] called(ierr) && ierr != nil ==> result.err == ierr && !called(ans)
+//@   ensures[otherwise-the-answer-is-that-unification] called(ierr) && ierr == nil ==> called(ans) && result == ans
+
+//@ -- procedure.call (interface method: built-in predicates and user-defined procedures): nothing is assumed about it
+//@ -- (any result, the whole heap may change); the declaration only makes its call site in Arrive nameable
+//@ -- procedure.call: declared in verif_contracts_c04panic.go
+
+//@ -- Arrive: a goal name(args...) runs the procedure stored under name/len(args), with exactly these arguments and this
+//@ -- continuation; an unknown procedure is an existence error on name/len(args) (or failure, by the flag `unknown`)
+//@ -- (*VM).Arrive: its contract is in verif_contracts_c04panic.go (it also carries C10)
